@@ -4,6 +4,7 @@ C17.a  definite initialisation of every scalar member of every FFSM2 record
 C17.b  user-provided copy/move constructors copy every base and member from the same base/member
 C17.c  copy/move construction of an automatically activated machine never re-enters (no initialEnter)
 C17.d  no mutable namespace-scope / static state; externals are deterministic
+C17.g  save() clears the whole buffer before its first write: the serialized form does not depend on what the buffer held (shares C12.a)
 C17.f  copy/move construction and assignment write only the new object: the source (and so its later behaviour) is left as it was
 C17.e  no value depends on an address: no pointer<->integer casts, no pointer ordering / subtraction / identity tests other than null
 """
@@ -51,12 +52,19 @@ def run(run):
         run.guard('source untouched', records.source_untouched, run, 'C17.f', F, _eff.Effects(F))
         if w == 'w_core':
             run.guard('copy does not reenter', copy_does_not_reenter, run, F)
+        if w == 'w_core' and facts.cfg_has(c, 'S'):
+            # the serialized form is a function of the machine alone, not of what the destination buffer held before: every save path clears
+            # the whole buffer before its first write (shares the writer/reader tables of C12.a)
+            from rules import c12 as _c12
+            run.guard('field tables', _c12.field_tables, run, F, _eff.Effects(F))
+            run.relabel('C12.a', 'C17.g')
         facts.drop(F)
     run.floor('C17.a', 40)
     run.floor('C17.b', 6)
     run.floor('C17.c', 2)
     run.floor('C17.e', 4)
     run.floor('C17.f', 20)
+    run.floor('C17.g', 4)
     run.explanation = (
         'Record-level rules over every FFSM2 class instantiated by witnesses w_core and w_pay in each feature '
         'configuration: definite initialisation of scalar members by every constructor, member-by-member coverage of '
